@@ -13,6 +13,7 @@ import (
 	"log/slog"
 	"os"
 	"runtime/debug"
+	"slices"
 	"syscall"
 	"testing"
 	"time"
@@ -63,8 +64,11 @@ type notifier struct {
 	sigs []os.Signal
 }
 
-func (n *notifier) Notify(c chan<- os.Signal, sig ...os.Signal) { n.ch, n.sigs = c, sig }
-func (n *notifier) Stop(chan<- os.Signal)                       {}
+// Notify: as with os/signal, repeated calls for one channel widen its set.
+func (n *notifier) Notify(c chan<- os.Signal, sig ...os.Signal) {
+	n.ch, n.sigs = c, append(n.sigs, sig...)
+}
+func (n *notifier) Stop(chan<- os.Signal) {}
 
 const (
 	outNil = iota
@@ -301,12 +305,31 @@ func runSignal(rc *kernel.RunCtx, k *kernel.Kernel) {
 			return false
 		}
 	}
+	// A faithful notifier relays only the signals the handler registered for,
+	// as os/signal does (the other half of the runs delivers whatever the
+	// script says, which is how "ignores non-shutdown signals" is exercised).
+	// With it a shutdown signal can only be dropped because another signal
+	// that the handler asked for sits in its one-slot channel - so once a
+	// shutdown signal has been sent, Handle has to come back without any
+	// re-sending.
+	faithful := nRounds == 1 && tp.Bool(1, 2)
+	regSigs := append([]os.Signal(nil), nt.sigs...)
+	shutdownSent := false // scheduler-side: a registered shutdown signal was sent (enqueued or dropped)
+	if faithful {
+		rc.Stats.Probe("notifier-relays-registered-signals-only")
+	}
 	k.Go("signals", true, func() {
 		deliver := func(sig os.Signal) bool {
 			shutdown := osutil.IsShutdownSignal(sig)
 			k.Yield("signal.next")
+			if faithful && !slices.Contains(regSigs, sig) {
+				return false
+			}
 			ok := send(sig)
 			k.Tell("signal.sent", func() {
+				if faithful && shutdown {
+					shutdownSent = true
+				}
 				if !ok {
 					rc.Stats.Fault("signal-dropped-channel-full")
 					k.Logf("  signal ", sig.String(), " dropped")
@@ -331,7 +354,7 @@ func runSignal(rc *kernel.RunCtx, k *kernel.Kernel) {
 			// (every attempt is a step, so a handler that is alive drains the
 			// one-slot channel in between) or this round's Handle has returned.
 			for i := 0; i < 64; i++ {
-				if deliver(finals[r]) {
+				if deliver(finals[r]) || faithful {
 					break
 				}
 				if k.Ask("signal.retry", func() any { return round > r }).(bool) {
@@ -416,7 +439,7 @@ func runSignal(rc *kernel.RunCtx, k *kernel.Kernel) {
 
 	k.Run()
 
-	if !k.Failed() && k.HarnessErr == "" && k.Inconclusive == "" && round < nRounds && queueHasShutdown() {
+	if !k.Failed() && k.HarnessErr == "" && k.Inconclusive == "" && round < nRounds && (queueHasShutdown() || shutdownSent) {
 		k.Fail("no-return", "SignalHandler.Handle", "a shutdown signal was delivered and no more events are pending, but Handle has not returned ("+taskState(handler)+")")
 	}
 	k.Finish()
@@ -818,6 +841,13 @@ func runRefresh(rc *kernel.RunCtx, k *kernel.Kernel) {
 	// The owner may call Shutdown again (a worker that is also registered in a
 	// SignalHandler); whatever that call does, it must not refresh.
 	shutdownTwice := tp.Bool(1, 4)
+	// Lifecycle out of order: the worker is shut down before it is started (a
+	// shutdown signal that arrives while services are still starting).  It
+	// must not refresh afterwards, whatever Start does then.
+	shutdownFirst := !s.zeroRace && tp.Bool(1, 10)
+	if shutdownFirst {
+		rc.Stats.Probe("shutdown-before-start")
+	}
 	k.Logf("refresh: onShutdown=", btoa(s.onShutdown), " ticks=", kernel.Itoa(maxTicks), " shutdownAfter=", kernel.Itoa(shutdownAfter))
 
 	w := service.NewRefreshWorker(&service.RefreshWorkerConfig{
@@ -906,17 +936,26 @@ func runRefresh(rc *kernel.RunCtx, k *kernel.Kernel) {
 	}
 
 	k.Go("controller", false, func() {
-		k.Yield("start")
-		if err := w.Start(s.startCtx); err != nil {
-			k.Report("start-error", "RefreshWorker.Start", err.Error())
+		start := func() bool {
+			k.Yield("start")
+			if err := w.Start(s.startCtx); err != nil {
+				k.Report("start-error", "RefreshWorker.Start", err.Error())
 
-			return
+				return false
+			}
+
+			return true
 		}
-		k.YieldOpts(kernel.Opts{
-			Site: "shutdown.when",
-			Pred: func() bool { return fired >= shutdownAfter && (!s.zeroRace || s.inRefresh || fired >= maxTicks) },
-			Post: func() { shutdownRequested = true },
-		})
+		if !shutdownFirst {
+			if !start() {
+				return
+			}
+			k.YieldOpts(kernel.Opts{
+				Site: "shutdown.when",
+				Pred: func() bool { return fired >= shutdownAfter && (!s.zeroRace || s.inRefresh || fired >= maxTicks) },
+				Post: func() { shutdownRequested = true },
+			})
+		}
 		k.Ask("shutdown.invoke", func() any {
 			s.shutdownInvoked = true
 			if s.curTimer != nil && s.curTimer.fired && s.refreshedSince == 0 {
@@ -957,6 +996,9 @@ func runRefresh(rc *kernel.RunCtx, k *kernel.Kernel) {
 				s.fail("shutdown-error", "Shutdown did not return the final refresh's error")
 			}
 		})
+		if shutdownFirst && !start() {
+			return
+		}
 		if shutdownTwice {
 			func() {
 				defer func() {
